@@ -12,6 +12,7 @@
 import json, os, shutil, subprocess, sys, time
 
 ROOT = os.path.dirname(os.path.dirname(os.path.abspath(__file__)))
+REPO = os.environ.get("VERIF_REPO", "/repo")
 ENV = dict(os.environ, GOFLAGS="-mod=mod", GOPROXY="off", GOSUMDB="off",
            VERIF_REPLAY_DIR=os.path.join(ROOT, ".work", "seed-replays"),
            VERIF_EVIDENCE_DIR=os.path.join(ROOT, ".work", "seed-evidence"))
@@ -73,11 +74,11 @@ def main():
             os.remove(demo_dst)
         sh("git checkout -- .", cwd=wt)
     # --- 2. our checks against it ---
-    rc, out = sh("git -C /repo status --porcelain --untracked-files=no")
+    rc, out = sh("git -C " + REPO + " status --porcelain --untracked-files=no")
     assert not out.strip(), "/repo not clean"
     results = {}
     try:
-        rc, out = sh("git -C /repo apply %s" % patch)
+        rc, out = sh("git -C " + REPO + " apply %s" % patch)
         if rc != 0:
             note("error", "patch does not apply to /repo: " + out[-300:])
             return finish(name, src, meta)
@@ -89,7 +90,7 @@ def main():
             meta["ran"].append("git -C /repo apply patch.diff && ./check %s %s -> exit %d" % (pid, tier, rc))
             print(pid, results[pid], flush=True)
     finally:
-        sh("git -C /repo checkout -- .")
+        sh("git -C " + REPO + " checkout -- .")
     meta["checks"] = results
     meta["detected_by"] = [p for p, r in results.items() if r["exit"] == 1]
     finish(name, src, meta)
